@@ -82,6 +82,12 @@ CHECKS = {
         text="21 definitions (parameter bare, in Option/Vec/map/tuple/array, in another generic, inlined, flattened, optional; two parameters; defaults incl. a default naming another parameter and a user type; lifetime; const parameter; concrete(..); enums incl. adjacently tagged; newtype/tuple structs; recursive; where-clause) x 3 argument choices: identical declaration for every choice, exactly the non-concretised parameters in order with defaults, no unbound names, name() = ident<names of arguments>, Subst(decl, args) denotes decl_concrete().",
         note="Trusted: as C01; the family of definitions is hand-written.",
         design_ref="DESIGN.md section 5 (C07)"),
+    "C03": dict(
+        category="model_checking",
+        technique="Graphs.tla enumerates (edge kind x placement of dependency x placement of root x directory spelling); each case is a real module exported by the real export_all_to (import-esm off/on); every written file parsed; closure judged by TLC with FreeNames (TsTypes.tla) and Resolve (Paths.tla) in Trace_Imports.tla",
+        text="33 edge kinds (by name, through Option/Vec/Box/map/tuple/array/Result/Range, generic argument, argument of argument, parameter default, inline, inlined generic, flatten, flattened enum, as, type override, skip, optional, self reference, cycle, payloads of every enum representation, inlined newtype variants in tagged enums, variant/container as, two types in one file) at the default placement, and every combination of 6-8 dependency placements x 3-5 root placements x 2-4 directory spellings for seven of them, under import-esm off and on. Per written file: imported names = free names of its declarations minus same-file names, parameters and built-ins; each once; every specifier well-formed and resolving to a written file that declares the name; no self-import. Static half: a file importing exactly dependencies() must be closed for decl().",
+        note="Trusted: TLC, tsparse, module resolution as in C08. Names inside #[ts(type = ..)] overrides are user text.",
+        design_ref="DESIGN.md section 5 (C03)"),
 }
 
 NOT_YET = "check not built yet (work in progress, see DESIGN.md appendix B)"
